@@ -20,7 +20,7 @@ EXPLANATION = (
     "in the same block (and vice versa), and whole-row stores are empty_line(); (5) PROG: every while loop of the emulator assigns its driving variable on every back edge."
     ' Added after seed round 3: (11) every path through push_cursor stores is_rotten_cursor; (12) the reverse and forward arms of linefeed test mirrored comparisons.'
     ' Round 4: C15.4 follows locals bound to a grid row (`line = self.term[y]`); (13) every scroll decision of linefeed / push_cursor compares the row with the scroll-region margin.'
-    ' Round-4 triage: (14) scroll / IL / DL pop before they insert and IL / DL return outside the scrolling region; (15) erase calls pass inclusive cursor coordinates; (16) the canvas cursor is built from constrained coordinates; (17) counting loops driven by an escape-sequence parameter are clamped with min() first; (18) SGR state: csi_set_attr() undoes exactly the colour adjustment sgi_to_attrspec() applies (bold->bright, foreground only) and no SGR parameter is interpreted by fixed position.'
+    ' Round-4 triage: (14) scroll / IL / DL pop before they insert and IL / DL return outside the scrolling region; (15) erase calls pass inclusive cursor coordinates; (16) the canvas cursor is built from constrained coordinates; (17) counting loops driven by an escape-sequence parameter are clamped with min() first; (18) SGR state: csi_set_attr() undoes exactly the colour adjustment sgi_to_attrspec() applies (bold->bright, foreground only) and no SGR parameter is interpreted by fixed position; (19) lines leaving the scrollback are cut / padded to the current width and shortening the scrollback re-clamps scrolling_up.'
 )
 NOT_DECIDED = (
     "Index-bounds safety of every self.term[y][x] access (IndexError is outside the exception model; only the clamp discipline is decided), width normalisation of rows returned "
@@ -676,6 +676,55 @@ def rule_sgr_state(ctx: Ctx) -> RuleResult:
     return rr
 
 
+def rule_scrollback(ctx: Ctx) -> RuleResult:
+    """Lines in the scrollback keep the width they had when they scrolled off, and `scrolling_up` (how far the view
+    is scrolled back) is only meaningful while it does not exceed the scrollback length.  So (a) every function
+    that takes lines *out of* the scrollback (pop() into the grid, the scrolled-back content()) brings them to
+    self.width - a `[: self.width]` cut and an empty_char() padding; (b) every function that shortens the scrollback
+    re-clamps scrolling_up (min(..., len(scrollback)) or 0) on every path to its exit."""
+    p = ctx.p
+    rr = RuleResult("PASS", "C15.19", "lines leaving the scrollback are cut / padded to the current width, and shortening the scrollback re-clamps scrolling_up", floor=3)
+    tc = p.cls(f"{VT}.TermCanvas")
+
+    def is_sb(e, sn):
+        return isinstance(e, ast.Attribute) and e.attr == "scrollback_buffer" and isinstance(e.value, ast.Name) and e.value.id == sn
+
+    for fi in p.all_class_functions(tc):
+        sn = fi.self_name
+        if sn is None:
+            continue
+        takes, shortens = [], []
+        for n in fi.own_nodes():
+            if isinstance(n, ast.Call) and isinstance(n.func, ast.Attribute) and is_sb(n.func.value, sn):
+                if n.func.attr in ("pop", "popleft"):
+                    takes.append(n)
+                    shortens.append(n)
+                elif n.func.attr == "clear":
+                    shortens.append(n)
+            elif isinstance(n, ast.Starred) and is_sb(n.value, sn):
+                takes.append(n)
+            elif isinstance(n, (ast.For, ast.comprehension)) and is_sb(n.iter, sn):
+                takes.append(n)
+            elif isinstance(n, ast.Subscript) and is_sb(n.value, sn) and isinstance(n.ctx, ast.Load):
+                takes.append(n)
+        if takes:
+            cut = any(isinstance(x, ast.Subscript) and isinstance(x.slice, ast.Slice) and x.slice.upper is not None and ast.unparse(x.slice.upper) == f"{sn}.width" for x in fi.own_nodes())
+            pad = any(isinstance(x, ast.BinOp) and isinstance(x.op, ast.Mult) and "empty_char" in ast.unparse(x) for x in fi.own_nodes())
+            rr.inst(f"{short(fi)}: takes lines", True, {"function": short(fi), "takes": [norm(t, 50) for t in takes], "cut_to_width": cut, "padded": pad})
+            if not (cut and pad):
+                rr.add(finding("PASS", fi, takes[0], f"{fi.name}() takes lines out of the scrollback (`{norm(takes[0], 50)}`) without bringing them to the current width ({'no `[: self.width]` cut' if not cut else 'no empty_char() padding'}): after a width change the rows it hands on are not `width` cells long - the grid / the scrolled-back canvas is ragged", construct=f"{fi.name}: scrollback lines not brought to self.width"))
+        if shortens:
+            cfg = cfg_of(fi)
+            clamps = [c for c in cfg.nodes if isinstance(c.ast, ast.Assign) and any(isinstance(t, ast.Attribute) and t.attr == "scrolling_up" for t in c.ast.targets) and ((isinstance(c.ast.value, ast.Constant) and c.ast.value.value == 0) or (isinstance(c.ast.value, ast.Call) and callee_name(c.ast.value) == "min" and "scrollback_buffer" in ast.unparse(c.ast.value)))]
+            for sh in shortens:
+                nodes = nodes_where(cfg, lambda x, sh=sh: x is sh)
+                ok = bool(clamps) and all(cfg.must_pass(n, clamps, ends=[cfg.exit], labels=("T", "F", "n")) for n in nodes)
+                rr.inst(f"{short(fi)}: shortens", True, {"function": short(fi), "shortens": norm(sh, 50), "clamps": [norm(c.stmt, 70) for c in clamps]})
+                if not ok:
+                    rr.add(finding("PASS", fi, sh, f"`{norm(sh, 50)}` shortens the scrollback and a path to the end of {fi.name}() does not re-clamp self.scrolling_up to its new length: a view scrolled back further than the scrollback now reaches yields fewer than `height` rows", construct=f"{fi.name}: scrolling_up not re-clamped after {norm(sh, 40)}"))
+    return rr
+
+
 def run(ctx: Ctx):
     p = ctx.p
     tc = f"{VT}.TermCanvas"
@@ -702,6 +751,7 @@ def run(ctx: Ctx):
         rule_cursor_constrained(ctx),
         rule_bounded_counts(ctx),
         rule_sgr_state(ctx),
+        rule_scrollback(ctx),
     ]
     return out
 
@@ -710,6 +760,9 @@ from ..mutants import Mut  # noqa: E402
 
 _V = "urwid/vterm.py"
 MUTANTS = [
+    Mut("scrollback-view-old-width", _V, "TermCanvas.content", "                if (padding := self.width - len(line)) > 0:\n                    yield line + [self.empty_char()] * padding\n                else:\n                    yield line[: self.width]\n", "                yield line\n", "PASS|vterm.TermCanvas.content"),
+    Mut("resize-keeps-scrolling-up", _V, "TermCanvas.resize", "        self.scrolling_up = min(self.scrolling_up, len(self.scrollback_buffer))\n", "", "PASS|vterm.TermCanvas.resize"),
+    Mut("twin-resize-clamp-if-form", _V, "TermCanvas.resize", "        self.scrolling_up = min(self.scrolling_up, len(self.scrollback_buffer))\n", "        self.scrolling_up = min(len(self.scrollback_buffer), self.scrolling_up)\n", twin=True),
     Mut("sgr-fg-undo-unconditional", _V, "TermCanvas.csi_set_attr", "if fg >= 8 and self.attrspec.colors == 16 and self.attrspec.bold:", "if fg >= 8 and self.attrspec.colors == 16:", "SIB|vterm.TermCanvas.csi_set_attr|fg"),
     Mut("sgr-bg-darkened", _V, "TermCanvas.csi_set_attr", "                bg = self.attrspec.background_number\n", "                bg = self.attrspec.background_number\n                if bg >= 8 and self.attrspec.colors == 16:\n                    bg -= 8\n", "SIB|vterm.TermCanvas.csi_set_attr|bg"),
     Mut("sgr-trailing-zero-reset", _V, "TermCanvas.csi_set_attr", "        attributes = set()\n", "        if attrs[-1] == 0:\n            self.attrspec = None\n        attributes = set()\n", "SIB|vterm.TermCanvas.csi_set_attr|positional"),
